@@ -1,13 +1,16 @@
 (** C16 - DeepSearch reports exactly the matching locations.  Final statements only.
 
     Reading.  [deep_search oracles c item obj] models DeepSearch(obj, item, **c) for ANY item
-    of the value universe (atom or container); it returns
+    of the value universe (atom or container) and any searched object [obj : xvalue]: the value
+    universe ([inj]) extended with class instances ([XObj cls attrs]: __dict__ / __slots__ objects,
+    attrs = the non-dunder names of dir(obj) with their values; a bound method is an instance without
+    attributes), named tuples ([XNamed]) and objects whose attributes cannot be read ([XOpaque]); it returns
     [RRaise] (the TypeError of __init__) or [ROk evs], evs being the reports in the order the code makes them:
     [EvValue q v] = matched_values entry for the key sequence q, [EvPath q v] = matched_paths
     entry, [EvAttr q n] = matched_paths entry for the bound method n of the str at q (finding
     K16f).  [prepare] is the item normalisation of __init__; (cs, it) is the normalised item.
     The oracles (regular expressions, str(bytes), str(pattern), dir(str)) are universally
-    quantified.  [wf obj] is the representation invariant of Python dicts / sets.
+    quantified.  [xwf obj] is the representation invariant of Python dicts / sets.
 
     Exclusion has two readings: the documented one ([vis_doc], [matches_spec_doc],
     [paths_spec_doc]) and the one implemented ([vis], [matches_spec], [paths_spec]); they
@@ -16,20 +19,20 @@ From Coq Require Import List ZArith NArith Bool String.
 Import ListNotations.
 From DD Require Import Base.PyStr Base.Value.
 From DD Require Path.PathModel.
-From DD Require Import Search.SearchModel Search.SearchSpec Search.SearchProofs Search.SearchExtract.
+From DD Require Import Search.SearchModel Search.SearchSpec Search.SearchProofs Search.SearchExtract Search.SearchObjects.
 
 (* every reported value path extracts from the object a value that matches the item under
    the chosen mode ([item_match]: by the comparer of its type, or by equality with the item):
    all objects, items (containers included), modes, exclusions *)
 Theorem C16_sound :
-  forall (brepr : pystr -> pystr) (re_search excl_re : pystr -> bool) (re_text : pystr)
-         (sa ba : list pystr) (c : config) (item : value) (obj : value) (cs : bool)
+  forall (slower brepr : pystr -> pystr) (re_search excl_re : pystr -> bool) (re_text : pystr)
+         (sa ba : list pystr) (c : config) (item : value) (obj : xvalue) (cs : bool)
          (it : eitem) (evs : list event),
-    wf obj = true ->
-    prepare brepr c item = PItem cs it ->
-    deep_search brepr re_search excl_re re_text sa ba c item obj = ROk evs ->
-    forall (q : path) (v : value),
-      In (EvValue q v) evs -> get_at obj q = Some v /\ item_match brepr re_search c cs it v = true.
+    xwf obj = true ->
+    prepare slower brepr c item = PItem cs it ->
+    deep_search slower brepr re_search excl_re re_text sa ba c item obj = ROk evs ->
+    forall (q : path) (v : xvalue),
+      In (EvValue q v) evs -> get_at obj q = Some v /\ item_match slower brepr re_search c cs it v = true.
 Proof. exact final_sound. Qed.
 Print Assumptions C16_sound.
 
@@ -38,25 +41,25 @@ Print Assumptions C16_sound.
    equals the searched item is reported and not descended into; a container matches only as
    such an item): all objects, items, modes, exclusions *)
 Theorem C16_values_exact :
-  forall (brepr : pystr -> pystr) (re_search excl_re : pystr -> bool) (re_text : pystr)
-         (sa ba : list pystr) (c : config) (item : value) (obj : value) (cs : bool)
+  forall (slower brepr : pystr -> pystr) (re_search excl_re : pystr -> bool) (re_text : pystr)
+         (sa ba : list pystr) (c : config) (item : value) (obj : xvalue) (cs : bool)
          (it : eitem) (evs : list event),
-    wf obj = true ->
-    prepare brepr c item = PItem cs it ->
-    deep_search brepr re_search excl_re re_text sa ba c item obj = ROk evs ->
-    forall (q : path) (v : value),
-      In (EvValue q v) evs <-> In (q, v) (matches_spec brepr re_search excl_re c cs it obj).
+    xwf obj = true ->
+    prepare slower brepr c item = PItem cs it ->
+    deep_search slower brepr re_search excl_re re_text sa ba c item obj = ROk evs ->
+    forall (q : path) (v : xvalue),
+      In (EvValue q v) evs <-> In (q, v) (matches_spec slower brepr re_search excl_re c cs it obj).
 Proof. exact final_values_exact. Qed.
 Print Assumptions C16_values_exact.
 
 (* completeness against the DOCUMENTED exclusion is false (K16: the item, not the object, is
    tested against exclude_types) ... *)
 Theorem C16_complete_refuted :
-  exists (cs : bool) (it : eitem) (evs : list event) (q : path) (v : value),
-    wf k16c_obj = true /\
-    prepare id_repr k16c_cfg k16c_item = PItem cs it /\
-    deep_search id_repr no_re no_re [] [] [] k16c_cfg k16c_item k16c_obj = ROk evs /\
-    In (q, v) (matches_spec_doc id_repr no_re no_re k16c_cfg cs it k16c_obj) /\
+  exists (cs : bool) (it : eitem) (evs : list event) (q : path) (v : xvalue),
+    xwf k16c_obj = true /\
+    prepare lower id_repr k16c_cfg k16c_item = PItem cs it /\
+    deep_search lower id_repr no_re no_re [] [] [] k16c_cfg k16c_item k16c_obj = ROk evs /\
+    In (q, v) (matches_spec_doc lower id_repr no_re no_re k16c_cfg cs it k16c_obj) /\
     ~ In (EvValue q v) evs.
 Proof. exact complete_refuted. Qed.
 Print Assumptions C16_complete_refuted.
@@ -64,94 +67,94 @@ Print Assumptions C16_complete_refuted.
 (* ... and for container items (K16h: a list / tuple / dict / set equal to the item is found
    only as an ITEM of a list / tuple / set, never as a dictionary value or the root) ... *)
 Theorem C16_complete_container_refuted :
-  exists (cs : bool) (it : eitem) (evs : list event) (q : path) (v : value),
-    wf k16h_obj = true /\
-    prepare id_repr k16f_cfg k16h_item = PItem cs it /\ item_excl k16f_cfg it = false /\
-    deep_search id_repr no_re no_re k16h_text [] [] k16f_cfg k16h_item k16h_obj = ROk evs /\
-    In (q, v) (matches_spec_doc id_repr no_re no_re k16f_cfg cs it k16h_obj) /\
+  exists (cs : bool) (it : eitem) (evs : list event) (q : path) (v : xvalue),
+    xwf k16h_obj = true /\
+    prepare lower id_repr k16f_cfg k16h_item = PItem cs it /\ item_excl k16f_cfg it = false /\
+    deep_search lower id_repr no_re no_re k16h_text [] [] k16f_cfg k16h_item k16h_obj = ROk evs /\
+    In (q, v) (matches_spec_doc lower id_repr no_re no_re k16f_cfg cs it k16h_obj) /\
     ~ In (EvValue q v) evs.
 Proof. exact complete_container_refuted. Qed.
 Print Assumptions C16_complete_container_refuted.
 
 (* ... and holds whenever the item is an atom whose own type is not excluded *)
 Theorem C16_complete_partial :
-  forall (brepr : pystr -> pystr) (re_search excl_re : pystr -> bool) (re_text : pystr)
-         (sa ba : list pystr) (c : config) (item : value) (obj : value) (cs : bool)
+  forall (slower brepr : pystr -> pystr) (re_search excl_re : pystr -> bool) (re_text : pystr)
+         (sa ba : list pystr) (c : config) (item : value) (obj : xvalue) (cs : bool)
          (it : eitem) (evs : list event),
-    wf obj = true ->
-    prepare brepr c item = PItem cs it ->
-    deep_search brepr re_search excl_re re_text sa ba c item obj = ROk evs ->
+    xwf obj = true ->
+    prepare slower brepr c item = PItem cs it ->
+    deep_search slower brepr re_search excl_re re_text sa ba c item obj = ROk evs ->
     item_excl c it = false ->
     atom_item it = true ->
-    forall (q : path) (v : value),
-      In (q, v) (matches_spec_doc brepr re_search excl_re c cs it obj) -> In (EvValue q v) evs.
+    forall (q : path) (v : xvalue),
+      In (q, v) (matches_spec_doc slower brepr re_search excl_re c cs it obj) -> In (EvValue q v) evs.
 Proof. exact final_complete_partial. Qed.
 Print Assumptions C16_complete_partial.
 
 (* under the K16 guard (the root and the dictionary values are not of an excluded type)
    matched_values is exactly the documented specification *)
 Theorem C16_values_exact_doc_partial :
-  forall (brepr : pystr -> pystr) (re_search excl_re : pystr -> bool) (re_text : pystr)
-         (sa ba : list pystr) (c : config) (item : value) (obj : value) (cs : bool)
+  forall (slower brepr : pystr -> pystr) (re_search excl_re : pystr -> bool) (re_text : pystr)
+         (sa ba : list pystr) (c : config) (item : value) (obj : xvalue) (cs : bool)
          (it : eitem) (evs : list event),
-    wf obj = true ->
-    prepare brepr c item = PItem cs it ->
-    deep_search brepr re_search excl_re re_text sa ba c item obj = ROk evs ->
+    xwf obj = true ->
+    prepare slower brepr c item = PItem cs it ->
+    deep_search slower brepr re_search excl_re re_text sa ba c item obj = ROk evs ->
     item_excl c it = false ->
     atom_item it = true ->
     k16_guard c obj = true ->
-    forall (q : path) (v : value),
-      In (EvValue q v) evs <-> In (q, v) (matches_spec_doc brepr re_search excl_re c cs it obj).
+    forall (q : path) (v : xvalue),
+      In (EvValue q v) evs <-> In (q, v) (matches_spec_doc slower brepr re_search excl_re c cs it obj).
 Proof. exact final_values_exact_doc_partial. Qed.
 Print Assumptions C16_values_exact_doc_partial.
 
 (* matched_paths entries for locations are exactly the dictionary entries of visible
    dictionaries whose path text contains the item: all inputs *)
 Theorem C16_paths_exact :
-  forall (brepr : pystr -> pystr) (re_search excl_re : pystr -> bool) (re_text : pystr)
-         (sa ba : list pystr) (c : config) (item : value) (obj : value) (cs : bool)
+  forall (slower brepr : pystr -> pystr) (re_search excl_re : pystr -> bool) (re_text : pystr)
+         (sa ba : list pystr) (c : config) (item : value) (obj : xvalue) (cs : bool)
          (it : eitem) (evs : list event),
-    wf obj = true ->
-    prepare brepr c item = PItem cs it ->
-    deep_search brepr re_search excl_re re_text sa ba c item obj = ROk evs ->
-    forall (q : path) (v : value),
-      In (EvPath q v) evs <-> In (q, v) (paths_spec brepr re_search excl_re re_text c cs it obj).
+    xwf obj = true ->
+    prepare slower brepr c item = PItem cs it ->
+    deep_search slower brepr re_search excl_re re_text sa ba c item obj = ROk evs ->
+    forall (q : path) (v : xvalue),
+      In (EvPath q v) evs <-> In (q, v) (paths_spec slower brepr re_search excl_re re_text c cs it obj).
 Proof. exact final_paths_exact. Qed.
 Print Assumptions C16_paths_exact.
 
 Theorem C16_paths_exact_doc_partial :
-  forall (brepr : pystr -> pystr) (re_search excl_re : pystr -> bool) (re_text : pystr)
-         (sa ba : list pystr) (c : config) (item : value) (obj : value) (cs : bool)
+  forall (slower brepr : pystr -> pystr) (re_search excl_re : pystr -> bool) (re_text : pystr)
+         (sa ba : list pystr) (c : config) (item : value) (obj : xvalue) (cs : bool)
          (it : eitem) (evs : list event),
-    wf obj = true ->
-    prepare brepr c item = PItem cs it ->
-    deep_search brepr re_search excl_re re_text sa ba c item obj = ROk evs ->
+    xwf obj = true ->
+    prepare slower brepr c item = PItem cs it ->
+    deep_search slower brepr re_search excl_re re_text sa ba c item obj = ROk evs ->
     item_excl c it = false ->
     atom_item it = true ->
     k16_guard c obj = true ->
     k16b_guard brepr excl_re c obj = true ->
-    forall (q : path) (v : value),
-      In (EvPath q v) evs <-> In (q, v) (paths_spec_doc brepr re_search excl_re re_text c cs it obj).
+    forall (q : path) (v : xvalue),
+      In (EvPath q v) evs <-> In (q, v) (paths_spec_doc slower brepr re_search excl_re re_text c cs it obj).
 Proof. exact final_paths_exact_doc_partial. Qed.
 Print Assumptions C16_paths_exact_doc_partial.
 
 (* matched_paths can contain paths that are not locations of the object (K16f) ... *)
 Theorem C16_paths_only_locations_refuted :
   exists (evs : list event) (q : path) (n : pystr),
-    wf k16f_obj = true /\
-    deep_search id_repr no_re no_re [] k16f_attrs [] k16f_cfg (VAtom ANone) k16f_obj = ROk evs /\
+    xwf k16f_obj = true /\
+    deep_search lower id_repr no_re no_re [] k16f_attrs [] k16f_cfg (VAtom ANone) k16f_obj = ROk evs /\
     In (EvAttr q n) evs.
 Proof. exact paths_only_locations_refuted. Qed.
 Print Assumptions C16_paths_only_locations_refuted.
 
 (* ... but only when the item is None or a container *)
 Theorem C16_paths_only_locations_partial :
-  forall (brepr : pystr -> pystr) (re_search excl_re : pystr -> bool) (re_text : pystr)
-         (sa ba : list pystr) (c : config) (item : value) (obj : value) (cs : bool)
+  forall (slower brepr : pystr -> pystr) (re_search excl_re : pystr -> bool) (re_text : pystr)
+         (sa ba : list pystr) (c : config) (item : value) (obj : xvalue) (cs : bool)
          (it : eitem) (evs : list event),
-    wf obj = true ->
-    prepare brepr c item = PItem cs it ->
-    deep_search brepr re_search excl_re re_text sa ba c item obj = ROk evs ->
+    xwf obj = true ->
+    prepare slower brepr c item = PItem cs it ->
+    deep_search slower brepr re_search excl_re re_text sa ba c item obj = ROk evs ->
     forall a : atom, item = VAtom a -> a <> ANone ->
     forall (q : path) (n : pystr), ~ In (EvAttr q n) evs.
 Proof. exact final_only_locations_partial. Qed.
@@ -160,13 +163,13 @@ Print Assumptions C16_paths_only_locations_partial.
 (* "excluded paths and types never appear" is false: a float reported with exclude_types=[float]
    (K16), an excluded path reported under matched_paths (K16b) ... *)
 Theorem C16_exclusions_refuted :
-  (exists (evs : list event) (q : path) (v : value),
-      wf k16_obj = true /\
-      deep_search id_repr no_re no_re [] [] [] k16_cfg k16_item k16_obj = ROk evs /\
-      In (EvValue q v) evs /\ ty_excl k16_cfg (type_of v) = true)
-  /\ (exists (evs : list event) (q : path) (v : value),
-         wf k16b_obj = true /\
-         deep_search id_repr no_re no_re [] [] [] k16b_cfg k16b_item k16b_obj = ROk evs /\
+  (exists (evs : list event) (q : path) (v : xvalue),
+      xwf k16_obj = true /\
+      deep_search lower id_repr no_re no_re [] [] [] k16_cfg k16_item k16_obj = ROk evs /\
+      In (EvValue q v) evs /\ ty_excl k16_cfg (xtype_of v) = true)
+  /\ (exists (evs : list event) (q : path) (v : xvalue),
+         xwf k16b_obj = true /\
+         deep_search lower id_repr no_re no_re [] [] [] k16b_cfg k16b_item k16b_obj = ROk evs /\
          In (EvPath q v) evs /\ path_excl id_repr no_re k16b_cfg q = true).
 Proof. exact (conj exclusions_types_refuted exclusions_paths_refuted). Qed.
 Print Assumptions C16_exclusions_refuted.
@@ -174,25 +177,25 @@ Print Assumptions C16_exclusions_refuted.
 (* ... and true under the guards: nothing reported is excluded in the documented sense (neither
    the location nor any ancestor has an excluded path or type) *)
 Theorem C16_exclusions_partial :
-  forall (brepr : pystr -> pystr) (re_search excl_re : pystr -> bool) (re_text : pystr)
-         (sa ba : list pystr) (c : config) (item : value) (obj : value) (cs : bool)
+  forall (slower brepr : pystr -> pystr) (re_search excl_re : pystr -> bool) (re_text : pystr)
+         (sa ba : list pystr) (c : config) (item : value) (obj : xvalue) (cs : bool)
          (it : eitem) (evs : list event),
-    wf obj = true ->
-    prepare brepr c item = PItem cs it ->
-    deep_search brepr re_search excl_re re_text sa ba c item obj = ROk evs ->
+    xwf obj = true ->
+    prepare slower brepr c item = PItem cs it ->
+    deep_search slower brepr re_search excl_re re_text sa ba c item obj = ROk evs ->
     k16_guard c obj = true ->
-    (forall (q : path) (v : value), In (EvValue q v) evs -> vis_doc brepr excl_re c [] obj q = true) /\
+    (forall (q : path) (v : xvalue), In (EvValue q v) evs -> vis_doc brepr excl_re c [] obj q = true) /\
     (k16b_guard brepr excl_re c obj = true ->
-     forall (q : path) (v : value), In (EvPath q v) evs -> vis_doc brepr excl_re c [] obj q = true).
+     forall (q : path) (v : xvalue), In (EvPath q v) evs -> vis_doc brepr excl_re c [] obj q = true).
 Proof. exact final_exclusions_partial. Qed.
 Print Assumptions C16_exclusions_partial.
 
 (* the guards are satisfiable by a non-trivial input *)
 Theorem C16_guards_satisfiable :
-  wf guard_obj = true /\ k16_guard guard_cfg guard_obj = true /\
+  xwf guard_obj = true /\ k16_guard guard_cfg guard_obj = true /\
   k16b_guard id_repr no_re guard_cfg guard_obj = true /\
   item_excl guard_cfg (EAtom guard_item) = false /\
-  deep_search id_repr no_re no_re [] [] [] guard_cfg guard_item_v guard_obj = ROk guard_evs.
+  deep_search lower id_repr no_re no_re [] [] [] guard_cfg guard_item_v guard_obj = ROk guard_evs.
 Proof. exact guards_satisfiable. Qed.
 Print Assumptions C16_guards_satisfiable.
 
@@ -202,9 +205,9 @@ Print Assumptions C16_guards_satisfiable.
    into its text.  (Findings K16d / K16i, the TypeErrors of the traversal, are fixed in /repo by
    9553299, 49764d9, bcd9dc1 and the model follows: it has no raise event any more.) *)
 Theorem C16_never_raises :
-  forall (brepr : pystr -> pystr) (re_search excl_re : pystr -> bool) (re_text : pystr)
-         (sa ba : list pystr) (c : config) (item : value) (obj : value),
-    deep_search brepr re_search excl_re re_text sa ba c item obj = RRaise <->
+  forall (slower brepr : pystr -> pystr) (re_search excl_re : pystr -> bool) (re_text : pystr)
+         (sa ba : list pystr) (c : config) (item : value) (obj : xvalue),
+    deep_search slower brepr re_search excl_re re_text sa ba c item obj = RRaise <->
     use_regexp c = true /\ item_is_text item = false /\ loose_number c item = false.
 Proof. exact never_raises. Qed.
 Print Assumptions C16_never_raises.
@@ -212,14 +215,14 @@ Print Assumptions C16_never_raises.
 (* the former K16d / K16i witnesses now return results: a str item is found in the str only;
    a bytes pattern is found in the bytes only and is not applied to the text of a number *)
 Theorem C16_str_in_bytes_not_found :
-  deep_search id_repr no_re no_re [] [] [] k16f_cfg k16d_item k16d_obj
-  = ROk [EvValue [SIdx 1] (VAtom (AStr (s2p "abc")))].
+  deep_search lower id_repr no_re no_re [] [] [] k16f_cfg k16d_item k16d_obj
+  = ROk [EvValue [SIdx 1] (XAtom (AStr (s2p "abc")))].
 Proof. exact str_in_bytes_not_found. Qed.
 Print Assumptions C16_str_in_bytes_not_found.
 
 Theorem C16_bytes_pattern_on_numbers :
-  deep_search id_repr k16i_re no_re [] [] [] k16i_cfg k16i_item k16i_obj
-  = ROk [EvValue [SIdx 1] (VAtom (ABytes (s2p "1")))].
+  deep_search lower id_repr k16i_re no_re [] [] [] k16i_cfg k16i_item k16i_obj
+  = ROk [EvValue [SIdx 1] (XAtom (ABytes (s2p "1")))].
 Proof. exact bytes_pattern_on_numbers. Qed.
 Print Assumptions C16_bytes_pattern_on_numbers.
 
@@ -227,41 +230,122 @@ Print Assumptions C16_bytes_pattern_on_numbers.
    reported location with that text and that value, and every reported location's text is a key *)
 Theorem C16_result_dict :
   forall (brepr : pystr -> pystr) (evs : list event),
-    (forall (t : pystr) (v : value), In (t, v) (matched_values brepr evs) ->
+    (forall (t : pystr) (v : xvalue), In (t, v) (matched_values brepr evs) ->
         exists q : path, render brepr q = t /\ In (EvValue q v) evs) /\
-    (forall (q : path) (v : value), In (EvValue q v) evs ->
-        exists v' : value, In (render brepr q, v') (matched_values brepr evs)).
+    (forall (q : path) (v : xvalue), In (EvValue q v) evs ->
+        exists v' : xvalue, In (render brepr q, v') (matched_values brepr evs)).
 Proof. exact matched_values_spec. Qed.
 Print Assumptions C16_result_dict.
+
+(* ---- class instances, named tuples, `unprocessed` ---- *)
+
+(* the `unprocessed` events are EXACTLY the objects whose attributes cannot be read that the search
+   enters (visible under exclusion as implemented): all objects, items, modes *)
+Theorem C16_unprocessed_exact :
+  forall (slower brepr : pystr -> pystr) (re_search excl_re : pystr -> bool) (re_text : pystr)
+         (sa ba : list pystr) (c : config) (item : value) (obj : xvalue) (cs : bool)
+         (it : eitem) (evs : list event),
+    xwf obj = true ->
+    prepare slower brepr c item = PItem cs it ->
+    deep_search slower brepr re_search excl_re re_text sa ba c item obj = ROk evs ->
+    forall q : path,
+      In (EvUnproc q) evs <-> In q (unprocessed_spec slower brepr excl_re c cs it obj).
+Proof. exact final_unprocessed_exact. Qed.
+Print Assumptions C16_unprocessed_exact.
+
+(* the result list `unprocessed` holds exactly the texts of those locations *)
+Theorem C16_unprocessed_list :
+  forall (brepr : pystr -> pystr) (evs : list event) (t : pystr),
+    In t (unprocessed brepr evs) <-> exists q : path, render brepr q = t /\ In (EvUnproc q) evs.
+Proof. exact unprocessed_list_spec. Qed.
+Print Assumptions C16_unprocessed_list.
+
+(* nothing is reported under matched_values at such an object, and nothing at all below it *)
+Theorem C16_unprocessed_silent :
+  forall (slower brepr : pystr -> pystr) (re_search excl_re : pystr -> bool) (re_text : pystr)
+         (sa ba : list pystr) (c : config) (item : value) (obj : xvalue) (cs : bool)
+         (it : eitem) (evs : list event),
+    xwf obj = true ->
+    prepare slower brepr c item = PItem cs it ->
+    deep_search slower brepr re_search excl_re re_text sa ba c item obj = ROk evs ->
+    forall (q : path) (cl : pystr), get_at obj q = Some (XOpaque cl) ->
+      (forall v, ~ In (EvValue q v) evs) /\
+      (forall r s v, ~ In (EvValue (q ++ s :: r)%list v) evs) /\
+      (forall r s v, ~ In (EvPath (q ++ s :: r)%list v) evs).
+Proof. exact final_opaque_silent. Qed.
+Print Assumptions C16_unprocessed_silent.
+
+(* a concrete run over an instance with a list, a str and a bound method, an unreadable object and
+   a named tuple held by a dictionary (reports in the implementation's order; path text root[2]['k'].y) *)
+Theorem C16_objects_example :
+  xwf ex_obj = true /\
+  deep_search lower id_repr no_re no_re [] [] [] ex_cfg (VAtom (AStr (s2p "x"))) ex_obj
+  = ROk [EvValue [SIdx 0; SAttr (s2p "a"); SIdx 0] (XAtom (AStr (s2p "x")));
+         EvValue [SIdx 0; SAttr (s2p "b")] (XAtom (AStr (s2p "x1")));
+         EvPath [SIdx 0; SAttr (s2p "xmeth")] (XObj (s2p "method") []);
+         EvUnproc [SIdx 1];
+         EvPath [SIdx 2; SKey (AStr (s2p "k")); SAttr (s2p "x")] (XAtom (AInt 1));
+         EvValue [SIdx 2; SKey (AStr (s2p "k")); SAttr (s2p "y")] (XAtom (AStr (s2p "x")))]
+  /\ render id_repr [SIdx 2; SKey (AStr (s2p "k")); SAttr (s2p "y")] = s2p "root[2]['k'].y".
+Proof. exact objects_example. Qed.
+Print Assumptions C16_objects_example.
+
+(* a named tuple that == a tuple item is found as a dictionary value, unlike a tuple there (K16h);
+   as an item of a list it is reported by the equality shortcut; an instance never equals an item *)
+Theorem C16_named_tuple_found :
+  deep_search lower id_repr no_re no_re (s2p "(1, 2.0)") [] [] ex_cfg nt_item nt_obj
+  = ROk [EvValue [SKey (AStr (s2p "k"))] (XNamed (s2p "P") [(s2p "x", XAtom (AHalf 2)); (s2p "y", XAtom (AInt 2))])].
+Proof. exact named_tuple_found_as_dict_value. Qed.
+Print Assumptions C16_named_tuple_found.
+
+(* K16 with classes: an instance of an excluded class that is a dictionary value is entered and
+   its attribute reported; the same instance and a named tuple (a tuple for exclude_types) are
+   skipped as items of a list *)
+Theorem C16_exclusions_classes_refuted :
+  exists (evs : list event) (q : path) (v : xvalue) (par : path) (w : xvalue),
+    xwf k16o_obj = true /\
+    deep_search lower id_repr no_re no_re [] [] [] k16o_cfg (VAtom (AInt 7)) k16o_obj = ROk evs /\
+    evs = [EvValue q v] /\ q = [SIdx 1; SKey (AStr (s2p "k")); SAttr (s2p "a")] /\
+    par = [SIdx 1; SKey (AStr (s2p "k"))] /\ get_at k16o_obj par = Some w /\
+    ty_excl k16o_cfg (xtype_of w) = true.
+Proof. exact exclusions_classes_refuted. Qed.
+Print Assumptions C16_exclusions_classes_refuted.
+
+(* on plain values the equality of the shortcut is Python's == of the shared universe *)
+Theorem C16_plain_equality : forall (v w : value), xeqv (inj v) w = py_eqv v w.
+Proof. exact xeqv_inj. Qed.
+Print Assumptions C16_plain_equality.
 
 (* deepdiff.extract (model and proofs of the Path block, C09) resolves every reported
    matched_values / matched_paths path to the reported value, provided the keys on the path
    are tame (str keys without a single quote and inside the C09 round-trip guard, no bytes
-   keys: there search.py's own printer and path.py's printer produce the same text) and no
-   set is subscripted on the way ... *)
+   keys, no attribute steps: there search.py's own printer and path.py's printer produce the
+   same text) and no set is subscripted on the way; stated for plain values [inj obj], the
+   universe of the Path block ... *)
 Theorem C16_sound_extract_partial :
-  forall (brepr : pystr -> pystr) (re_search excl_re : pystr -> bool) (re_text : pystr)
+  forall (slower brepr : pystr -> pystr) (re_search excl_re : pystr -> bool) (re_text : pystr)
          (sa ba : list pystr) (c : config) (item : value) (obj : value) (cs : bool)
          (it : eitem) (evs : list event),
     wf obj = true ->
-    prepare brepr c item = PItem cs it ->
-    deep_search brepr re_search excl_re re_text sa ba c item obj = ROk evs ->
-    forall (q : path) (v : value),
-      In (EvValue q v) evs -> tame_path q = true -> set_free_along obj q = true ->
-      PathModel.extract obj (render brepr q) = Some v /\ item_match brepr re_search c cs it v = true.
+    prepare slower brepr c item = PItem cs it ->
+    deep_search slower brepr re_search excl_re re_text sa ba c item (inj obj) = ROk evs ->
+    forall (q : path) (w : xvalue),
+      In (EvValue q w) evs -> tame_path q = true -> set_free_along (inj obj) q = true ->
+      exists v : value, w = inj v /\ PathModel.extract obj (render brepr q) = Some v
+                        /\ item_match slower brepr re_search c cs it w = true.
 Proof. exact sound_extract_partial. Qed.
 Print Assumptions C16_sound_extract_partial.
 
 Theorem C16_paths_extract_partial :
-  forall (brepr : pystr -> pystr) (re_search excl_re : pystr -> bool) (re_text : pystr)
+  forall (slower brepr : pystr -> pystr) (re_search excl_re : pystr -> bool) (re_text : pystr)
          (sa ba : list pystr) (c : config) (item : value) (obj : value) (cs : bool)
          (it : eitem) (evs : list event),
     wf obj = true ->
-    prepare brepr c item = PItem cs it ->
-    deep_search brepr re_search excl_re re_text sa ba c item obj = ROk evs ->
-    forall (q : path) (v : value),
-      In (EvPath q v) evs -> tame_path q = true -> set_free_along obj q = true ->
-      PathModel.extract obj (render brepr q) = Some v.
+    prepare slower brepr c item = PItem cs it ->
+    deep_search slower brepr re_search excl_re re_text sa ba c item (inj obj) = ROk evs ->
+    forall (q : path) (w : xvalue),
+      In (EvPath q w) evs -> tame_path q = true -> set_free_along (inj obj) q = true ->
+      exists v : value, w = inj v /\ PathModel.extract obj (render brepr q) = Some v.
 Proof. exact paths_extract_partial. Qed.
 Print Assumptions C16_paths_extract_partial.
 
@@ -274,10 +358,10 @@ Print Assumptions C16_render_is_path_render.
 
 (* ... and not in general (K16g): a key containing a single quote *)
 Theorem C16_sound_extract_refuted :
-  exists (evs : list event) (q : path) (v : value),
-    wf k16g_obj = true /\
-    deep_search id_repr no_re no_re [] [] [] k16f_cfg k16g_item k16g_obj = ROk evs /\
-    In (EvValue q v) evs /\ set_free_along k16g_obj q = true /\
-    PathModel.extract k16g_obj (render id_repr q) = None.
+  exists (evs : list event) (q : path) (v : xvalue),
+    wf k16g_val = true /\
+    deep_search lower id_repr no_re no_re [] [] [] k16f_cfg k16g_item (inj k16g_val) = ROk evs /\
+    In (EvValue q v) evs /\ set_free_along (inj k16g_val) q = true /\
+    PathModel.extract k16g_val (render id_repr q) = None.
 Proof. exact sound_extract_refuted. Qed.
 Print Assumptions C16_sound_extract_refuted.
